@@ -3,7 +3,7 @@ CFG = {'assumptions': ["every position, size and n stays below 2^31 - 64 (Go's i
                  'position lists are ascending (duplicates allowed) and non-negative; sizes and Set positions are non-negative',
                  'OfMany is compared only where the shifted concatenation is ascending (DESIGN section 6, C12, interpretation recorded); Builder has no such restriction',
                  "Builder: 'enough words for every bit' is read as: every set position is below 64*len(Words) (implied by ones(flat Words) = the positions set so far); the exact word count is compared with the model only (correspondence), not required by the checker"],
- 'files': ['bitmap/of.go', 'bitmap/ofmany.go', 'bitmap/builder.go', 'bitmap/toarray.go', 'bitmap/get.go'],
+ 'files': ['bitmap/of.go', 'bitmap/ofmany.go', 'bitmap/builder.go', 'bitmap/toarray.go', 'bitmap/get.go', 'bitmap/mask.go', 'bitmap/fmt.go'],
  'go': {'bitmap.Of': 'bitmap.Of',
         'bitmap.ToArray': 'bitmap.ToArray',
         'bitmap.Of/ToArray': 'bitmap.ToArray(bitmap.Of(ps, n...))',
@@ -13,6 +13,7 @@ CFG = {'assumptions': ["every position, size and n stays below 2^31 - 64 (Go's i
         'bitmap.OfMany': 'bitmap.OfMany',
         'bitmap.Mask': 'bitmap.Mask[i], bitmap.RMask[i]',
         'bitmap.Bit': 'bitmap.MaskUpto[i], bitmap.RMaskUpto[i], bitmap.Bit[i], bitmap.RBit[i]',
+        'bitmap.Fmt': 'bitmap.Fmt on an integer / a slice of integers of every kind (and on non-integer types)',
         'bitmap.Builder': 'bitmap.NewBuilder + Builder.Extend / Builder.Set history, Words and Offset after every call'},
  'rule': 'cases = Of: every subset of {0,1,62,63,64,65,127,128} x 18 choices of n (absent, negative down to -2^31, smaller, last+1, '
          'larger, word-aligned) + random ascending lists in 5 styles (dense, small gaps, word boundaries, gaps > 3 '
@@ -20,6 +21,9 @@ CFG = {'assumptions': ["every position, size and n stays below 2^31 - 64 (Go's i
          'SafeGet/SafeGet1 inside, SafeGet* outside (negative, just past the end, far, int32 extremes); OfMany on 0..6 '
          'segments (size 0, empty segments, position size-1, positions >= size in the last segment); Builder histories '
          'of 1..12 Extend/Set calls from NewBuilder(0|1|63|64|100|1000) (size 0, empty lists, positions >= size, Set '
-         'below/at/above Offset, even and negative values), Words and Offset compared after every call. Non-trivial: '
+         'below/at/above Offset, even and negative values), Words and Offset compared after every call; widening: every entry of Mask/RMask/MaskUpto/RMaskUpto/Bit/RBit '
+         'and the first indices outside (panic); Fmt on every uint8 and int8 value, on 1/2/4/8-byte signed and unsigned '
+         'integers single and in slices of 0..5 (boundaries, single bits, complements, random), on Of(...) bitmaps, on '
+         'non-integer types. Non-trivial: '
          'non-empty position list / bitmap with a 1-bit / probed word neither 0 nor all-ones / >1 segment with a '
          'position / >1 call; distinct = distinct (op,args)'}
